@@ -207,7 +207,7 @@ func kStructural(x *vc.Exec, lr *vc.LoadResult, repo string, res *vc.PassResult,
 	// C17 / C16: Process builds a fresh compiler and generator per file and hands the caller's output path to it
 	if fn := lr.Funcs["go.uber.org/cff/internal::(*Processor).Process"]; fn != nil {
 		good, why := checkProcessFresh(fn)
-		sink.Structural("internal.(*Processor).Process", "frame", "fresh-compiler-and-generator-per-file", []string{"C17", "C16"}, good, why)
+		sink.Structural("internal.(*Processor).Process", "frame", "fresh-compiler-and-generator-per-file", []string{"C17", "C16", "C14"}, good, why)
 	}
 	// C17: no package-level variable is written outside initialisation
 	for _, fn := range fns {
@@ -506,8 +506,42 @@ func checkProcessFresh(fn *ssa.Function) (bool, string) {
 			}
 		}
 	}
+	// generation happens only after CompileFile returned a nil error
+	var okBranch *ssa.BasicBlock
+	for _, b := range fn.Blocks {
+		for _, in := range b.Instrs {
+			iff, ok := in.(*ssa.If)
+			if !ok {
+				continue
+			}
+			bo, ok := iff.Cond.(*ssa.BinOp)
+			if !ok || bo.Op != token.NEQ {
+				continue
+			}
+			ex, ok := bo.X.(*ssa.Extract)
+			if !ok || ex.Index != 1 {
+				continue
+			}
+			if c, ok := ex.Tuple.(*ssa.Call); ok {
+				if f, _ := c.Call.Value.(*ssa.Function); f != nil && f.Name() == "CompileFile" && okBranch == nil {
+					okBranch = b.Succs[1]
+				}
+			}
+		}
+	}
+	for _, b := range fn.Blocks {
+		for _, in := range b.Instrs {
+			if call, ok := in.(*ssa.Call); ok {
+				if f, _ := call.Call.Value.(*ssa.Function); f != nil && f.Name() == "GenerateFile" {
+					if okBranch == nil || !okBranch.Dominates(b) {
+						okGen = false
+					}
+				}
+			}
+		}
+	}
 	if nComp == 1 && nGen == 2 && okGen {
-		return true, "one newCompiler, one generator constructor per mode, both used directly, OutputPath is the parameter"
+		return true, "one newCompiler, one generator constructor per mode, both used directly, OutputPath is the parameter, GenerateFile only after CompileFile returned no error"
 	}
 	return false, fmt.Sprintf("newCompiler calls=%d, generator constructors=%d, direct use=%v", nComp, nGen, okGen)
 }
